@@ -1199,4 +1199,22 @@ theorem matchesSni_iff (a sni : Bytes) : matchesSni a sni = true ↔ lower (stri
   · simp only [hl, ne_eq, not_false_eq_true, if_true, Bool.false_eq_true, false_iff]
     intro he; apply hl; rw [← he]; simp [lower]
 
+
+theorem asciiLower_eq_dot (b : Nat) : asciiLower b = DOT ↔ b = DOT := by
+  unfold asciiLower DOT
+  split <;> omega
+
+theorem count_dot_lower (x : Bytes) : (lower x).count DOT = x.count DOT := by
+  induction x with
+  | nil => rfl
+  | cons b x ih =>
+    simp only [lower, List.map_cons, List.count_cons] at ih ⊢
+    rw [ih]
+    by_cases hb : b = DOT
+    · simp [hb, (asciiLower_eq_dot DOT).mpr rfl]
+    · have : asciiLower b ≠ DOT := fun e => hb ((asciiLower_eq_dot b).mp e)
+      simp [hb, this]
+
+theorem lower_length (x : Bytes) : (lower x).length = x.length := by simp [lower]
+
 end Sozu.Tls
